@@ -475,6 +475,9 @@ func (wf *Workflow[I, O]) compile(ctx context.Context, options *graphCompileOpti
 			} else {
 				wf.g.handlerPreNode[n.key] = append([]handlerPair{pair}, wf.g.handlerPreNode[n.key]...)
 			}
+
+			// registered once, like the inputs above: a second Compile must not merge them again
+			n.staticValues = make(map[string]any)
 		}
 	}
 
